@@ -43,21 +43,26 @@ class VariableElimination(Inference):
         dict: Modified working factors.
         """
 
+        # Factors are keyed by identity: factors compare (and hash) by value, so
+        # distinct factors that happen to be equal must not be merged.
         working_factors = {
-            node: {(factor, None) for factor in self.factors[node]}
+            node: {id(factor): (factor, None) for factor in self.factors[node]}
             for node in self.factors
         }
 
         # Dealing with evidence. Reducing factors over it before VE is run.
         if evidence:
             for evidence_var in evidence:
-                for factor, origin in working_factors[evidence_var]:
+                for factor, origin in list(working_factors[evidence_var].values()):
                     factor_reduced = factor.reduce(
                         [(evidence_var, evidence[evidence_var])], inplace=False
                     )
                     for var in factor_reduced.scope():
-                        working_factors[var].remove((factor, origin))
-                        working_factors[var].add((factor_reduced, evidence_var))
+                        del working_factors[var][id(factor)]
+                        working_factors[var][id(factor_reduced)] = (
+                            factor_reduced,
+                            evidence_var,
+                        )
                 del working_factors[evidence_var]
         return working_factors
 
@@ -200,23 +205,23 @@ class VariableElimination(Inference):
             # eliminated (as all the factors should be considered only once)
             factors = [
                 factor
-                for factor, _ in working_factors[var]
+                for factor, _ in working_factors[var].values()
                 if not set(factor.variables).intersection(eliminated_variables)
             ]
             phi = factor_product(*factors)
             phi = getattr(phi, operation)([var], inplace=False)
             del working_factors[var]
             for variable in phi.variables:
-                working_factors[variable].add((phi, var))
+                working_factors[variable][id(phi)] = (phi, var)
             eliminated_variables.add(var)
 
         # Step 4: Prepare variables to be returned.
-        final_distribution = set()
+        final_distribution = {}
         for node in working_factors:
-            for factor, origin in working_factors[node]:
+            for factor, origin in working_factors[node].values():
                 if not set(factor.variables).intersection(eliminated_variables):
-                    final_distribution.add((factor, origin))
-        final_distribution = [factor for factor, _ in final_distribution]
+                    final_distribution[id(factor)] = factor
+        final_distribution = list(final_distribution.values())
 
         if joint:
             if isinstance(self.model, BayesianNetwork):
